@@ -18,6 +18,7 @@ func vpC04State() (*vpLeaderScn, string, bool, bool) {
 	vpStartCtx = nil
 	s.st.ttl = 0
 	tok := s.e.Token()
+	vpNoteToken(tok)
 	own := true // does the live record carry this instance's id and current token (as strings)?
 	switch vpChoose("record", 5) {
 	case 0: // untouched
